@@ -14,3 +14,5 @@ A = arena_common.pairs(); O = os_common.pairs()
 PAIRS += [A["arena_free"], A["arena_purge"], O["os_purge_ex"]]
 import page_common as _pc
 PAIRS += _pc.page_free_pairs()      # an empty page is freed at once or kept for a bounded number of cycles inside the scanned bin range; freeing unlinks, detaches and hands it to the segment layer once
+import seg_common as _sc
+PAIRS += [_sc.pairs()['segment_os_free']]      # a segment goes back to the arena layer exactly once with exactly its (base, size, memid)
